@@ -170,9 +170,10 @@ def execute(job):
     fam = _fams()[fname]
     catalog.reset_pool()
     mutable = sname.endswith("!mutable")
-    seed = fam.seeds[sname.split("!")[0]]()
+    base_name = sname.split("!")[0]
+    seed = fam.mutable_seeds[base_name]() if mutable and base_name in fam.mutable_seeds else fam.seeds[base_name]()
     if mutable:
-        seed.immutable = False   # PT_Sharing!MCall: builder calls work on the receiver itself
+        seed.immutable = False   # PT_Sharing!MCall: builder calls work on the receiver itself (already so for the seeds created that way)
     objs = [seed]
     obs = [observe.render_all(seed)]
     ev = {"tid": tid, "obs0": observe.digest(obs[0]), "steps": []}
@@ -305,7 +306,7 @@ def run(tier: str, prop: str = "C01") -> int:
         for fname in ("qb_generic", "qb_postgresql", "qb_mysql"):
             fam = fams[fname]
             labs = [l for l in fam.labels if "#pool" not in l and not l.startswith(("auto#", "wrap#"))]
-            for sname in ("from", "full"):
+            for sname in ("from", "full", "insert", "update"):
                 sid = f"{fname}.{sname}!mutable"
                 for how in ("copy", "deepcopy", "pickle"):
                     for l in labs:
